@@ -2,5 +2,6 @@ import SA.Model.DnsExchange
 import SA.Model.DnsWrites
 namespace SA.Drv.DnsExchange
 def entries : List (String × (List String → String)) :=
-  [("dnsretry", SA.DnsExchange.handle), ("dnswrites", SA.DnsWrites.handle)]
+  [("dnsretry", SA.DnsExchange.handle), ("dnswrites", SA.DnsWrites.handle),
+   ("dnspoll", SA.DnsWrites.handlePoll)]
 end SA.Drv.DnsExchange
